@@ -391,10 +391,46 @@ func (e *env) expLike(ti *tinfo, name string, ops []operand) {
 	if ti.Deg <= 6 || c.Thorough() {
 		exps = append(exps, e.rng.BigBits(1000), new(big.Int).Neg(e.rng.BigBits(777)))
 	}
+	nGeneric := len(exps)
+	if name == "ExpGLV" {
+		// exponents a + b*lambda mod r for the eigenvalues an implementation can use on GT - the Frobenius (x^p, so
+		// lambda = p mod r, and its inverse) and the primitive cube roots of unity mod r: the two halves of the
+		// decomposition are then (a, b) up to the lattice reduction, so that halves of different word lengths, a zero
+		// half and maximal halves are all met
+		lams := []*big.Int{new(big.Int).Mod(f.P, r)}
+		if inv := new(big.Int).ModInverse(lams[0], r); inv != nil {
+			lams = append(lams, inv)
+		}
+		if sq := new(big.Int).ModSqrt(new(big.Int).Sub(r, big.NewInt(3)), r); sq != nil && new(big.Int).Mod(r, big.NewInt(3)).Int64() == 1 {
+			inv2 := new(big.Int).ModInverse(big.NewInt(2), r)
+			for _, s := range []*big.Int{sq, new(big.Int).Sub(r, sq)} {
+				lam := new(big.Int).Sub(s, one)
+				lams = append(lams, lam.Mul(lam, inv2).Mod(lam, r))
+			}
+		}
+		{
+			p2 := func(k uint) *big.Int { return new(big.Int).Lsh(one, k) }
+			pairs := [][2]*big.Int{{p2(10), p2(64)}, {p2(64), p2(10)}, {big.NewInt(0), p2(64)}, {big.NewInt(1), p2(65)}, {p2(63), p2(64)},
+				{new(big.Int).Sub(p2(64), one), p2(64)}, {p2(64), new(big.Int).Sub(p2(64), one)}, {p2(20), p2(uint(r.BitLen()/2 - 1))}, {p2(uint(r.BitLen()/2 - 1)), big.NewInt(3)}}
+			for _, lam := range lams {
+				for pi, ab := range pairs {
+					v := new(big.Int).Mul(ab[1], lam)
+					v.Add(v, ab[0]).Mod(v, r)
+					if pi%2 == 1 {
+						v.Neg(v)
+					}
+					exps = append(exps, v)
+				}
+			}
+		}
+	}
 	for bi, b := range bases {
 		for ki, k := range exps {
-			if ti.Deg >= 12 && !c.Thorough() && (bi+ki)%2 == 1 && ki > 5 {
+			if ti.Deg >= 12 && !c.Thorough() && (bi+ki)%2 == 1 && ki > 5 && ki < nGeneric {
 				continue
+			}
+			if ki >= nGeneric && bi != 1 && !c.Thorough() {
+				continue // lattice-crafted exponents: one base (a generator of GT, bases[0] is 1) in the quick tier
 			}
 			x, z := e.mk(ti, b.v), e.junk(ti)
 			keep := new(big.Int).Set(k)
